@@ -102,11 +102,13 @@ fn random_desc(r: &mut Rng, m128: bool, seed: u32) -> (MachineDesc, Vec<(usize, 
     let sp = if !m128 && (sp.wrapping_sub(2) < 0x4000 || sp.wrapping_sub(1) < 0x4000) { 0x4002 } else { sp };
     let latch = if m128 { r.u8() & if r.chance(1, 2) { 0xDF } else { 0xFF } } else { 0 };
     let iff = r.chance(1, 2);
+    // IFF1 differs from IFF2 inside an NMI routine; the SNA format carries IFF2
+    let iff1 = if r.chance(1, 3) { !iff } else { iff };
     let d = MachineDesc {
         m128,
         cpu: CpuDesc {
             af: r.u16(), bc: r.u16(), de: r.u16(), hl: r.u16(), af_: r.u16(), bc_: r.u16(), de_: r.u16(), hl_: r.u16(),
-            ix: r.u16(), iy: r.u16(), sp, pc: r.word_b(), i: r.u8(), r: r.u8(), iff1: iff, iff2: iff, im: r.below(3) as u8,
+            ix: r.u16(), iy: r.u16(), sp, pc: r.word_b(), i: r.u8(), r: r.u8(), iff1, iff2: iff, im: r.below(3) as u8,
         },
         border: r.below(8) as u8,
         latch,
@@ -345,12 +347,16 @@ fn in_port(emu: &mut Emu, port: u16) -> u8 {
 /// "every RAM page as seen by ... the display": the CPU is parked in a DI / JR $ loop outside the screen for two
 /// frames (nothing writes memory), the canvas is sampled at random pixels, then CPU and the two code bytes are restored.
 /// `avoid`: display-file offsets the loader itself legitimately changed (48K SNA: PC left on the stack)
-fn display_sample(emu: &mut Emu, r: &mut Rng, avoid: &[usize]) -> Vec<Value> {
-    let (a, b) = (emu.peek(0x8000), emu.peek(0x8001));
-    poke_bytes(emu, 0x8000, &[0x18, 0xFE]);
+fn display_sample(emu: &mut Emu, r: &mut Rng, avoid: &[usize], out7ffd: Option<u8>) -> Vec<Value> {
+    let saved_mem: Vec<u8> = (0..4u16).map(|k| emu.peek(0x8000 + k)).collect();
+    // with `out7ffd`: OUT (C),A first (the program switches the displayed screen), then the loop
+    match out7ffd {
+        Some(_) => poke_bytes(emu, 0x8000, &[0xED, 0x79, 0x18, 0xFE]),
+        None => poke_bytes(emu, 0x8000, &[0x18, 0xFE]),
+    }
     let saved = {
         let c = emu.verif_cpu();
-        (c.regs.get_pc(), c.regs.get_r(), c.halted, c.skip_interrupt, c.regs.get_iff1(), c.regs.get_mem_ptr(), c.regs.verif_q())
+        (c.regs.get_pc(), c.regs.get_r(), c.halted, c.skip_interrupt, c.regs.get_iff1(), c.regs.get_mem_ptr(), c.regs.verif_q(), c.regs.get_bc(), c.regs.get_af())
     };
     {
         let c = emu.verif_cpu();
@@ -358,6 +364,10 @@ fn display_sample(emu: &mut Emu, r: &mut Rng, avoid: &[usize]) -> Vec<Value> {
         c.regs.set_iff1(false);
         c.halted = false;
         c.skip_interrupt = false;
+        if let Some(v) = out7ffd {
+            c.regs.set_bc(0x7FFD);
+            c.regs.set_acc(v);
+        }
     }
     emu.set_debug_interface(VDebug::Never);
     emu.set_speed(rustzx_core::EmulationMode::FrameCount(1));
@@ -376,7 +386,7 @@ fn display_sample(emu: &mut Emu, r: &mut Rng, avoid: &[usize]) -> Vec<Value> {
         }
         v.push(json!([x, y, px[y * 256 + x]]));
     }
-    poke_bytes(emu, 0x8000, &[a, b]);
+    poke_bytes(emu, 0x8000, &saved_mem);
     let c = emu.verif_cpu();
     c.regs.set_pc(saved.0);
     c.regs.set_r(saved.1);
@@ -385,6 +395,8 @@ fn display_sample(emu: &mut Emu, r: &mut Rng, avoid: &[usize]) -> Vec<Value> {
     c.regs.set_iff1(saved.4);
     c.regs.set_mem_ptr(saved.5);
     c.regs.verif_set_q(saved.6);
+    c.regs.set_bc(saved.7);
+    c.regs.set_af(saved.8);
     v
 }
 
@@ -516,7 +528,15 @@ fn fileloads(out: &mut Out, r: &mut Rng, count: u64) {
                             }
                         }
                     }
-                    ev["pix"] = json!(display_sample(&mut rx, r, &avoid));
+                    ev["pix"] = json!(display_sample(&mut rx, r, &avoid, None));
+                    // 128K with paging not locked: the program switches to the other screen bank - the display must
+                    // show that bank as the file describes it - and back
+                    if m_file && d.latch & 0x20 == 0 {
+                        ev["pix_other"] = json!(display_sample(&mut rx, r, &avoid, Some(d.latch ^ 8)));
+                        let _ = display_sample(&mut rx, r, &avoid, Some(d.latch));
+                    } else {
+                        ev["pix_other"] = json!([]);
+                    }
                     if !is_sna {
                         ev["ay_readback"] = json!(ay_readback(&mut rx));
                         rx.send_mouse_pos_diff(5, 0);
